@@ -478,10 +478,21 @@ def chk_history(rnd, users=(1000, 1001), uids=('a', 'b', 'c', 'd'), nreq=5, fat=
     for _ in range(rnd.randint(0, 3)): req()
     if rnd.random() < 0.5: cmds.append('K')
     for _ in range(rnd.randint(0, 2)): req()
-    if rnd.random() < 0.35:
-        # the last thing a user does: a request whose first item can succeed and whose last item fails
-        p = rnd.choice(users)
-        items = [{'kind': 'cancel', 'uid': rnd.choice(uids), 'peer': p}, {'kind': 'cancel', 'uid': 'nosuch', 'peer': p}]
-        metas[len(cmds)] = items; cmds.append('A\t%d\t%s' % (p, rrgen.esc(request(items, 'CANCEL'))))
+    if rnd.random() < 0.6:
+        # the last thing a user does: a request whose first item succeeds and whose last item fails, with nothing else of that user
+        # waiting to be saved (a checkpoint goes before it most of the time).  Who holds which UID is followed here only to pick
+        # a UID the user does hold; the judge follows it on its own.
+        own = {}
+        for i in sorted(metas):
+            for it in metas[i]:
+                if it['kind'] == 'add':
+                    if own.get(it['uid'], it['peer']) == it['peer']: own[it['uid']] = it['peer']
+                elif own.get(it['uid']) == it['peer']: del own[it['uid']]
+        holders = sorted(set(own.values()))
+        if holders:
+            p = rnd.choice(holders); mine = sorted(u for u, o in own.items() if o == p)
+            if rnd.random() < 0.7: cmds.append('K')
+            items = [{'kind': 'cancel', 'uid': rnd.choice(mine), 'peer': p}, {'kind': 'cancel', 'uid': 'nosuch', 'peer': p}]
+            metas[len(cmds)] = items; cmds.append('A\t%d\t%s' % (p, rrgen.esc(request(items, 'CANCEL'))))
     cmds.append('S')
     return cmds, metas
